@@ -304,6 +304,10 @@ func c09Adversarial(w *world.World, ctx sdk.Context, data string) []engine.Op {
 			{"kid-victim-did-attacker-version", sidVictim.Did + "?version-id=" + sidAttacker.DocId + "#k1"},
 			{"kid-victim-did-victim-version", sidVictim.Kid(sidVictim.DocId)},
 			{"kid-attacker-did", sidAttacker.Kid(sidAttacker.DocId)},
+			{"kid-two-versions-attacker-first", sidVictim.Did + "?version-id=" + sidAttacker.DocId + "&version-id=" + sidVictim.DocId + "#k1"},
+			{"kid-two-versions-victim-first", sidVictim.Did + "?version-id=" + sidVictim.DocId + "&version-id=" + sidAttacker.DocId + "#k1"},
+			{"kid-mixed-spelling", sidVictim.Did + "?versionId=" + sidAttacker.DocId + "&version-id=" + sidVictim.DocId + "#k1"},
+			{"kid-no-version", sidVictim.Did + "#k1"},
 		} {
 			tp := saotypes.TerminateProposal{Owner: sidVictim.Did, DataId: data}
 			mk("terminate", "sid:"+v.name, "sid,"+v.name, &saotypes.MsgTerminate{Creator: x, Provider: x, Proposal: tp, JwsSignature: world.SignKid(sidAttacker.KeyPriv, v.kid, &tp)})
